@@ -128,7 +128,7 @@ def normSqRag (d : List ℚ) (c : RagCurve) : ℚ :=
 /-! ### centring (positional: `np.isin` mask on the union grid) -/
 
 /-- `a[mask]`. -/
-def select : List Bool → List ℚ → List ℚ
+def select {α : Type} : List Bool → List α → List α
   | true :: ms, a :: as => a :: select ms as
   | false :: ms, _ :: as => select ms as
   | _, _ => []
@@ -241,10 +241,13 @@ def binned (long : List (ℚ × ℕ × ℚ)) : List (ℚ × ℚ) :=
     let ys := (long.filter fun r => r.1 = x).map fun r => r.2.2
     (x, ys.sum / ys.length)
 
+/-- `approx and len(fdata_long) > 2000`. -/
+def approxSwitch (approx : Bool) (n : ℕ) : Bool := approx && decide (2000 < n)
+
 /-- The samples handed to the mean smoother: the pooled long table, replaced by its
 per-point averages when `approx` and more than 2000 samples are pooled. -/
 def meanInputs (approx : Bool) (long : List (ℚ × ℕ × ℚ)) : List (ℚ × ℚ) :=
-  if approx ∧ 2000 < long.length then binned long else long.map fun r => (r.1, r.2.2)
+  if approxSwitch approx long.length then binned long else long.map fun r => (r.1, r.2.2)
 
 /-- `mean(points=d, method_smoothing=…)` with the smoother as a parameter `S samples d`. -/
 def meanNaN (S : List (ℚ × ℚ) → List ℚ → List ℚ) (approx : Bool) (d : List ℚ) (cs : List NaNCurve) : List ℚ :=
@@ -264,5 +267,48 @@ def covarianceNaN (S : List (ℚ × ℚ) → List ℚ → List ℚ) (approx : Bo
     (cs : List NaNCurve) (j k : ℕ) : ℚ := covNaN d (cs.map (centerNaN d (meanNaN S approx d cs))) j k
 def covarianceRag (S : List (ℚ × ℚ) → List ℚ → List ℚ) (approx : Bool) (d : List ℚ)
     (cs : List RagCurve) (j k : ℕ) : ℚ := covRag d (cs.map (centerRag d (meanRag S approx d cs))) j k
+
+/-! ### standardisation (`standardize`): guard and output buffer of the guarded division -/
+
+/-- `where=(std_obs > 1e-12)`; `std_obs` is the square root of the smoothed variance, NaN
+(`none`) where that variance is negative: a comparison with NaN is `False`. -/
+def stdGuard : Option ℚ → Bool
+  | none => false
+  | some s => decide ((1 : ℚ) / 1000000000000 < s)
+
+/-- `out=np.where(np.isnan(values), np.nan, 0.0)` (repaired code): what the result holds where
+the guard is false — NaN at a missing sample, 0 at an observed one. -/
+def stdBuffer : Option ℚ → Option ℚ
+  | none => none
+  | some _ => some 0
+
+/-- Unrepaired buffer `np.zeros_like(values)`. -/
+def stdBufferOld : Option ℚ → Option ℚ := fun _ => some 0
+
+/-- One cell of `np.divide(values, std, out=buffer, where=guard)`. -/
+def stdCell (v s : Option ℚ) : Option ℚ :=
+  if stdGuard s then (match v, s with
+    | some x, some y => some (x / y)
+    | _, _ => none) else stdBuffer v
+
+def stdCellOld (v s : Option ℚ) : Option ℚ :=
+  if stdGuard s then (match v, s with
+    | some x, some y => some (x / y)
+    | _, _ => none) else stdBufferOld v
+
+/-- `standardize` on a NaN-encoded curve: the deviations `sd` (on the union grid `d`) are
+picked through the `np.isin` mask, then the guarded division. -/
+def standardizeNaN (d : List ℚ) (sd : List (Option ℚ)) (c : NaNCurve) : NaNCurve :=
+  ⟨c.pts, List.zipWith stdCell c.vals (select (isin d c.pts) sd)⟩
+
+/-- On a ragged curve every value is a number. -/
+def standardizeRag (d : List ℚ) (sd : List (Option ℚ)) (c : RagCurve) : RagCurve :=
+  List.zipWith (fun p s => (p.1, (stdCell (some p.2) s).getD 0)) c (select (isin d (c.map Prod.fst)) sd)
+
+/-! ### weights of the covariance smoothing -/
+
+/-- `weights = np.ones_like(cov); weights[cov == 0] = 0`: a raw covariance that is exactly 0
+(in particular a pair of points never observed together) does not enter the smoothing. -/
+def covWeight (c : ℚ) : ℚ := if c = 0 then 0 else 1
 
 end FDA.Irr
